@@ -8,6 +8,7 @@ package main
 // then everything else is closed and the census (library goroutines, ports) is taken.
 
 import (
+	"context"
 	"encoding/json"
 	"fmt"
 	"math/rand"
@@ -35,7 +36,7 @@ func init() { drivers["c13"] = driveC13 }
 
 type c13scn struct {
 	Seed   int64    `json:"seed"`
-	Kind   string   `json:"kind"`   // idle | handshake | play | record | stuck | tunnelabort
+	Kind   string   `json:"kind"`   // idle | handshake | play | record | stuck | tunnelabort | ctunnelabort
 	Proto  string   `json:"proto"`  // tcp | udp | mcast (play scenarios, plain)
 	Tunnel string   `json:"tunnel"` // "" | http | ws
 	TLS    bool     `json:"tls"`
@@ -45,7 +46,9 @@ type c13scn struct {
 	Cycles int      `json:"cycles"`        // pause / resume cycles of the readers or of the publisher before the first Close
 	Mix    []string `json:"mix,omitempty"` // play: transport of each reader when they differ (tcp | udp | mcast)
 	// tunnelabort: which half of a raw HTTP tunnel the peer aborts and how
-	// (post_rst | get_rst | post_fin | get_fin | both_rst), and whether it was playing
+	// (post_rst | get_rst | post_fin | get_fin | both_rst), and whether it was playing.
+	// ctunnelabort: the same seen from the other side - a library client plays through an HTTP
+	// tunnel and the half named here is aborted at the SERVER's end of it
 	Abort   string `json:"abort,omitempty"`
 	Playing bool   `json:"playing,omitempty"`
 }
@@ -129,6 +132,13 @@ func driveC13(a *args, s *vt.Sink) error {
 					return err
 				}
 			}
+			for v := 0; v < 2; v++ {
+				sc := &c13scn{Seed: rng.Int63(), Kind: "ctunnelabort", Proto: "tcp", Tunnel: "http",
+					TLS: v&1 == 1, Abort: ab, Closer: "client", N: 1}
+				if err := c13run(sc, s); err != nil {
+					return err
+				}
+			}
 		}
 	}
 	return nil
@@ -208,6 +218,7 @@ func c13run(sc *c13scn, s *vt.Sink) (err error) {
 	}
 	// every connection the server accepts is tracked: after Server.Close none may be open
 	accepted := &c13accepted{}
+	dialed := &c13accepted{} // ... and every TCP connection a reading client opens
 	prevExtra := cfg.Extra
 	cfg.Extra = func(srv *gortsplib.Server) {
 		if prevExtra != nil {
@@ -370,7 +381,7 @@ func c13run(sc *c13scn, s *vt.Sink) (err error) {
 		for i := 1; i <= 6000; i++ {
 			bd.Stream.WritePacketRTP(bd.Desc.Medias[0], spec.Make(1, i, 96))
 		}
-	case "play":
+	case "play", "ctunnelabort":
 		for i := 0; i < sc.N; i++ {
 			proto := sc.Proto
 			if i < len(sc.Mix) {
@@ -398,6 +409,22 @@ func c13run(sc *c13scn, s *vt.Sink) (err error) {
 					}
 				}
 			}
+			udpExtra := rcfg.Extra
+			rcfg.Extra = func(c *gortsplib.Client) {
+				if udpExtra != nil {
+					udpExtra(c)
+				}
+				c.DialContext = func(ctx context.Context, network, address string) (net.Conn, error) {
+					nc, err := (&net.Dialer{}).DialContext(ctx, network, address)
+					if err != nil {
+						return nil, err
+					}
+					dialed.mu.Lock()
+					dialed.n++
+					dialed.mu.Unlock()
+					return &c13conn{Conn: nc, a: dialed}, nil
+				}
+			}
 			rd, err := bd.NewReader(rcfg,
 				"stream", func(_ *description.Media, _ format.Format, _ *rtp.Packet) {})
 			if err != nil {
@@ -407,6 +434,34 @@ func c13run(sc *c13scn, s *vt.Sink) (err error) {
 				return fmt.Errorf("c13: play (%+v): %w", sc, err)
 			}
 			clients = append(clients, rd.C)
+		}
+		if sc.Kind == "ctunnelabort" {
+			// the tunnel's GET half was accepted first, its POST half second (the last two
+			// connections: an earlier attempt of the reader may have left two closed ones)
+			get, post := accepted.nth(-2), accepted.nth(-1)
+			abort := func(c *c13conn, rst bool) {
+				if c == nil {
+					return
+				}
+				if tc, ok := c.Conn.(*net.TCPConn); ok && rst {
+					tc.SetLinger(0) //nolint:errcheck
+				}
+				c.Conn.Close() // (underneath the server: its own Close of this connection still counts)
+			}
+			switch sc.Abort {
+			case "post_rst":
+				abort(post, true)
+			case "get_rst":
+				abort(get, true)
+			case "post_fin":
+				abort(post, false)
+			case "get_fin":
+				abort(get, false)
+			default:
+				abort(post, true)
+				abort(get, true)
+			}
+			time.Sleep(time.Duration(20+rng.Intn(60)) * time.Millisecond) // the client notices, or not yet
 		}
 		wwg.Add(1)
 		go func() {
@@ -520,10 +575,10 @@ func c13run(sc *c13scn, s *vt.Sink) (err error) {
 		time.Sleep(5 * time.Millisecond)
 	}
 	// (a connection's goroutine has ended by now; its socket is closed by then)
-	conns := accepted.open()
+	conns := accepted.open() + dialed.open()
 	for i := 0; i < 200 && conns > 0; i++ {
 		time.Sleep(5 * time.Millisecond)
-		conns = accepted.open()
+		conns = accepted.open() + dialed.open()
 	}
 	tr.Emit("census", "goroutines", left, "ports", c13portsBusy(bd.IP, bd.Port, bd.UDPPort)+socks.open()+conns)
 	bd.SetTrace(nil)
@@ -533,8 +588,22 @@ func c13run(sc *c13scn, s *vt.Sink) (err error) {
 
 // c13accepted counts the connections a server accepted and has not closed yet.
 type c13accepted struct {
-	mu sync.Mutex
-	n  int
+	mu    sync.Mutex
+	n     int
+	conns []*c13conn
+}
+
+// nth returns the i-th accepted connection, counted from the end when negative (nil if there were fewer).
+func (a *c13accepted) nth(i int) *c13conn {
+	a.mu.Lock()
+	defer a.mu.Unlock()
+	if i < 0 {
+		i += len(a.conns)
+	}
+	if i >= 0 && i < len(a.conns) {
+		return a.conns[i]
+	}
+	return nil
 }
 
 func (a *c13accepted) open() int {
@@ -553,10 +622,12 @@ func (l *c13listener) Accept() (net.Conn, error) {
 	if err != nil {
 		return nil, err
 	}
+	cc := &c13conn{Conn: c, a: l.a}
 	l.a.mu.Lock()
 	l.a.n++
+	l.a.conns = append(l.a.conns, cc)
 	l.a.mu.Unlock()
-	return &c13conn{Conn: c, a: l.a}, nil
+	return cc, nil
 }
 
 type c13conn struct {
